@@ -13,12 +13,18 @@ ESC = list("*_`[]<>#\\!()")
 
 
 class Layout:
+    def rng_alone(self, i):
+        return True
+
     def __init__(self, rng):
         self.bullet = rng.choice("-*+")
         self.delim = rng.choice(".)")
         self.fence = rng.choice("`~")
         self.fence_len = rng.randint(3, 5)
         self.fence_indent = 0
+        self.marker_alone = rng.random() < 0.2
+        self.quote_bare_end = rng.random() < 0.2
+        self._alone_bits = rng.getrandbits(16)
         self.em = rng.choice("*_")
         self.strong = rng.choice(["**", "__"])
         self.setext = rng.random() < 0.3
@@ -318,6 +324,15 @@ def p_block(b, lay, top=False):
                 if j > 0 and not tight:
                     inner.append("")
                 inner += p_block(blk, lay)
+            alone = getattr(lay, "marker_alone", False) and blocks and blocks[0][0] == "para" and inner and inner[0] and not inner[0].startswith(" ")
+            if alone and top and i == 0 and lay.rng_alone(i):
+                # the marker alone on its line, the item's content starting on the next line (CommonMark: an item may begin with at most one blank line)
+                lines.append(marker)
+                for l in inner:
+                    lines.append((pad + l) if l else "")
+                if not tight and i < len(items) - 1:
+                    lines.append("")
+                continue
             for j, l in enumerate(inner):
                 lines.append((marker + " " + l) if j == 0 else ((pad + l) if l else ""))
             if not tight and i < len(items) - 1:
@@ -330,7 +345,12 @@ def p_blocks(blocks, lay, top=False):
     out = []
     for i, b in enumerate(blocks):
         if i > 0:
-            out.append("")
+            prev = blocks[i - 1]
+            if getattr(lay, "quote_bare_end", False) and prev[0] == "quote" and b[0] == "para" and prev[1] and prev[1][-1][0] == "para":
+                # a quote closed by a bare ">" line, the next paragraph following directly (the way to end a quote without a blank line)
+                out.append(">")
+            else:
+                out.append("")
         out += p_block(b, lay, top)
     return out
 
